@@ -197,6 +197,9 @@ def register_extents(reg):
         target=E, props=['C01'], kind='staticmethod',
         params={'semimajor_axis': 'posreal', 'semiminor_axis': 'posreal', 'theta': 'Quantity'},
         consts=consts,
+        replay={'call': 'photutils.aperture.ellipse:EllipticalMaskMixin._calc_extents', 'approx': True,
+                'args': ['semimajor_axis', 'semiminor_axis', 'theta'],
+                'argtypes': {'theta': 'Quantity'}},
         ensures=[
             ('non-negative', 'result[0] >= 0 and result[1] >= 0'),
             ('x-extent-squared', f'sq(result[0]) == sq(semimajor_axis * {c}) + '
@@ -227,6 +230,8 @@ def register_extents(reg):
         target=R, props=['C01'], kind='staticmethod',
         params={'width': 'posreal', 'height': 'posreal', 'theta': 'Quantity'},
         consts=consts,
+        replay={'call': 'photutils.aperture.rectangle:RectangularMaskMixin._calc_extents', 'approx': True,
+                'args': ['width', 'height', 'theta'], 'argtypes': {'theta': 'Quantity'}},
         ensures=[
             # containment of every corner (hence, by convexity, of the rectangle)
             ('contains-corners',
@@ -408,6 +413,8 @@ def register_mask_mode(reg):
             target=T, props=['C01'], kind='staticmethod', tag=f'rectangle={rect}',
             params={'mode': 'str', 'subpixels': 'int', 'rectangle': ('const', rect)},
             cases={'mode': ['center', 'subpixel', 'exact']},
+            replay={'call': 'photutils.aperture.core:PixelAperture._translate_mask_mode',
+                    'args': ['mode', 'subpixels', 'rectangle'], 'const': {'rectangle': rect}},
             raises=[('ValueError', "mode == 'subpixel' and subpixels <= 0")],
             ensures=[('center', "implies(mode == 'center', result == (0, 1))"),
                      ('subpixel', "implies(mode == 'subpixel', result == (0, subpixels))"),
